@@ -1040,3 +1040,81 @@ class DimGen(F.Gen):
     def inputs(self, prog, count=4):
         out = super().inputs(prog, count)
         return out
+
+
+# ----------------------------------------------------------------------------- C40: nested targets of a normaliser
+def const_selectors(v):
+    """Selector expressions with the compile-time value v (literal, or simplifiable arithmetic)."""
+    return [N(v), op('sum', N(v - 1), N(1)), op('sum', N(v + 2), op('neg', N(2))), op('prod', N(1), N(v)), op('par', N(v))]
+
+
+def add_decidable_selects(prog, rng, depth=None):
+    """Wrap statements of the kernel into constructs that dead-code removal decides statically and whose SELECTED
+    part again contains prunable code: SELECT CASE on a literal / simplifiable selector whose chosen CASE (or the
+    CASE DEFAULT) holds IFs with constant conditions and further decidable SELECT CASEs, nesting depth 2..3, and
+    IF (.true.) bodies that contain decidable SELECTs.  Returns (program, number of nested constructs)."""
+    prog = copy.deepcopy(prog)
+    count = [0]
+
+    def dead_if(s):
+        c = rng.choice([_T(False), F.cmp_('>', N(1), N(2)), op('and', _T(False), V('flag')), op('not', _T(True))])
+        return {'s': 'if', 'conds': [c], 'bodies': [[copy.deepcopy(s)]], 'els': [copy.deepcopy(s)] if rng.random() < 0.5 else []}
+
+    def live_if(inner):
+        c = rng.choice([_T(True), F.cmp_('==', N(3), N(3)), op('or', _T(True), V('flag')), op('not', _T(False))])
+        return {'s': 'if', 'conds': [c], 'bodies': [inner], 'els': []}
+
+    def select(inner, s, default_selected=False):
+        v = rng.randint(1, 4)
+        sel = copy.deepcopy(rng.choice(const_selectors(v)))
+        other = [{'lo': v + 1, 'hi': v + 1, 'body': [copy.deepcopy(s)]}]
+        if rng.random() < 0.4:
+            other.append({'lo': v + 2, 'hi': v + 3, 'body': [copy.deepcopy(s), dead_if(s)]})
+        if default_selected:     # no case value equals the selector: CASE DEFAULT runs
+            return {'s': 'select', 'e': sel, 'cases': other, 'default': inner}
+        cases = [{'lo': v, 'hi': v, 'body': inner}] + other
+        if rng.random() < 0.5:
+            cases = cases[1:] + cases[:1]
+        return {'s': 'select', 'e': sel, 'cases': cases, 'default': [copy.deepcopy(s)] if rng.random() < 0.6 else []}
+
+    def nest(s, d):
+        if d == 0:
+            return [copy.deepcopy(s), dead_if(s)] if rng.random() < 0.7 else [dead_if(s), copy.deepcopy(s)]
+        count[0] += 1
+        inner = nest(s, d - 1)
+        if rng.random() < 0.5 and d > 1:
+            inner = inner + [dead_if(s)]
+        r = rng.random()
+        if r < 0.6:
+            return [select(inner, s)]
+        if r < 0.75:
+            return [select(inner, s, default_selected=True)]
+        return [live_if([select(inner, s)])]
+
+    u = prog['units'][0]
+    head, tail = u['body'][:5], u['body'][5:]
+    simple = [i for i, s in enumerate(tail) if s['s'] in ('assign', 'print', 'call')]
+    chosen = rng.sample(simple, min(len(simple), rng.randint(2, 3))) if simple else []
+    out = []
+    for i, s in enumerate(tail):
+        out += nest(s, depth or rng.choice([2, 2, 3])) if i in chosen else [s]
+    if not chosen:
+        out += nest(assign(V('k'), op('sum', V('k'), N(1))), depth or 2)
+    u['body'] = head + out
+    return prog, count[0]
+
+
+def nested_vector_snippet(rng):
+    """Array sections nested inside the subscripts of arrays of a section assignment (vector subscripts), one and
+    two levels deep, and inside WHERE - occurrences of resolve_vector_notation's target inside what it rewrites."""
+    j = rng.choice([-1, 0, 1])
+    stmts = [f'ia(0:2) = ic(2 + mod(abs(ib(1:3, {j})), 5))',
+             f'ib(1:3, {j}) = ia(mod(abs(ic(2:4)), 5))',
+             'ic(2:4) = ia(mod(abs(ic(2 + mod(abs(ia(0:2)), 5))), 5))',
+             'ia(:) = ic(2 + mod(abs(ia(:)), 5))',
+             f'ib(:, {j}) = ib(1 + mod(abs(ia(0:2)), 3), 0) + ia(mod(abs(ib(:, 1)), 5))',
+             'where (ia(0:2) > 1) ia(0:2) = ic(2 + mod(abs(ia(2:4)), 5))',
+             'ia(1:3) = ic(ia(1:3)/2 + 2) + ic(6 - mod(abs(ia(0:2)), 3))']
+    body = rng.sample(stmts, rng.randint(2, 4))
+    return ('module kmod\n  implicit none\ncontains\n  subroutine kernel(ia, ib, ic)\n    integer, intent(inout) :: ia(0:4), ib(1:3, -1:1), ic(2:6)\n' +
+            '\n'.join('    ' + b for b in body) + '\n  end subroutine kernel\nend module kmod\n')
